@@ -46,7 +46,7 @@ func transportImpls(c *core.Ctx) []*ssa.Function {
 	}
 	iface, _ := tn.Underlying().(*types.Interface)
 	for _, fn := range c.SrcFuncs() {
-		if fn.Name() != "ExchangeContext" || fn.Signature.Recv() == nil || fn.Parent() != nil {
+		if core.CanonName(fn) != "ExchangeContext" || fn.Signature.Recv() == nil || fn.Parent() != nil {
 			continue
 		}
 		if iface != nil && types.Implements(fn.Signature.Recv().Type(), iface) {
